@@ -83,9 +83,9 @@ func checkC20(c *Ctx) *core.Result {
 		}
 		upperClass[u] = true
 	}
-	fpVal, okF := t.ClassConsts["sqliTokenTypeFingerprint"]
-	fnVal, okf := t.ClassConsts["sqliTokenTypeFunction"]
-	cmVal, okc := t.ClassConsts["sqliTokenTypeComment"]
+	fpVal, okF := classValue(t, classFingerprint)
+	fnVal, okf := classValue(t, classFunction)
+	cmVal, okc := classValue(t, classComment)
 	if !okF || !okf || !okc {
 		anchorFail(r, "class constants", "sqliTokenTypeFingerprint / Function / Comment not found in the class const block")
 		return r
